@@ -104,10 +104,10 @@ theorem lemma_bodyOk (l : List Char) (hne : l ≠ []) (h : '_' ∉ l) : bodyOk l
 /-- `int(sign ++ ds, base)` for a non-empty run of digits of the base without prefix -/
 theorem lemma_parse_digits (base : Nat) (neg : Bool) (ds : List Char) (hne : ds ≠ [])
     (hd : ∀ c ∈ ds, isDigitIn base c = true)
-    (hpre : base = 16 → skipHexPrefix ds = ds)
-    (hlim : ¬ (base = 10 ∧ overLimit ds.length = true)) :
+    (hpre : base = 16 → skipHexPrefix ds = ds) :
     pyIntParse base ((if neg then ['-'] else []) ++ ds)
-      = some (if neg then -(Int.ofNat (bodyValue base ds)) else Int.ofNat (bodyValue base ds)) := by
+      = if base = 10 ∧ overLimit ds.length = true then none
+        else some (if neg then -(Int.ofNat (bodyValue base ds)) else Int.ofNat (bodyValue base ds)) := by
   obtain ⟨d, ds', rfl⟩ : ∃ d ds', ds = d :: ds' := by
     cases ds with
     | nil => exact absurd rfl hne
@@ -137,7 +137,7 @@ theorem lemma_parse_digits (base : Nat) (neg : Bool) (ds : List Char) (hne : ds 
     split
     · exact hpre ‹_›
     · rfl
-  unfold pyIntParse
+  unfold pyIntParse pyIntParseAscii
   rw [lemma_intAscii_id _ hascii]
   cases neg
   · have e1 : (([] : List Char) ++ d :: ds').dropWhile isIntSpace = d :: ds' := by
@@ -146,23 +146,13 @@ theorem lemma_parse_digits (base : Nat) (neg : Bool) (ds : List Char) (hne : ds 
     have e3 : ((d :: ds').head? == some '-') = false := by simp [hdf.2.2.1]
     simp only [Bool.false_eq_true, if_false, e1, e2, e3, hs3, htw, hdw, hcount,
       lemma_bodyOk _ hne hus, List.all_nil, Bool.not_true]
-    simp only [List.length_cons] at hlim
-    simp
-    intro hb
-    cases ho : overLimit (ds'.length + 1)
-    · rfl
-    · exact absurd ⟨hb, ho⟩ hlim
+    try simp
   · have e1 : (['-'] ++ d :: ds').dropWhile isIntSpace = '-' :: d :: ds' := by
       simp [isIntSpace]
     have e2 : skipSign ('-' :: d :: ds') = d :: ds' := by simp [skipSign]
     simp only [if_true, e1, e2, hs3, htw, hdw, hcount,
       lemma_bodyOk _ hne hus, List.all_nil, Bool.not_true]
-    simp only [List.length_cons] at hlim
-    simp
-    intro hb
-    cases ho : overLimit (ds'.length + 1)
-    · rfl
-    · exact absurd ⟨hb, ho⟩ hlim
+    try simp
 
 /-! ### base 10: `int(str(n)) = n` -/
 
@@ -190,23 +180,30 @@ theorem lemma_bodyValue_toDigits (m : Nat) : bodyValue 10 (Nat.toDigits 10 m) = 
   rw [lemma_foldl_digits _ (fun c hc => (lemma_toDigits_digit m c hc).2)]
   exact Nat.ofDigitChars_ten_toDigits
 
-/-- number of decimal digits of an integer -/
-def numDigits (n : Int) : Nat := (Nat.toDigits 10 n.natAbs).length
+theorem lemma_parse_nat (m : Nat) (neg : Bool) :
+    pyIntParse 10 ((if neg then ['-'] else []) ++ Nat.toDigits 10 m)
+      = if overLimit (Nat.toDigits 10 m).length = true then none
+        else some (if neg then -(Int.ofNat m) else Int.ofNat m) := by
+  have key := lemma_parse_digits 10 neg (Nat.toDigits 10 m) Nat.toDigits_ne_nil
+    (fun c hc => (lemma_toDigits_digit _ c hc).1) (fun h => absurd h (by decide))
+  rw [lemma_bodyValue_toDigits] at key
+  simpa using key
+
+theorem lemma_render_eq (n : Int) :
+    render n = (if decide (n < 0) then ['-'] else []) ++ Nat.toDigits 10 n.natAbs := by
+  unfold render
+  by_cases hn : n < 0 <;> simp [hn]
 
 theorem lemma_parse_render (n : Int) (h : overLimit (numDigits n) = false) :
     pyIntParse 10 (render n) = some n := by
-  have key := lemma_parse_digits 10 (decide (n < 0)) (Nat.toDigits 10 n.natAbs) Nat.toDigits_ne_nil
-    (fun c hc => (lemma_toDigits_digit _ c hc).1) (fun h => absurd h (by decide))
-    (by unfold numDigits at h; simp [h])
-  rw [lemma_bodyValue_toDigits] at key
-  unfold render
-  by_cases hn : n < 0
-  · simp only [hn, decide_true, if_true] at key ⊢
-    rw [show ('-' :: Nat.toDigits 10 n.natAbs) = ['-'] ++ Nat.toDigits 10 n.natAbs from rfl, key]
-    congr 1; simp only [Int.ofNat_eq_natCast]; omega
-  · simp only [hn, decide_false, Bool.false_eq_true, if_false] at key ⊢
-    rw [show Nat.toDigits 10 n.natAbs = [] ++ Nat.toDigits 10 n.natAbs from rfl, key]
-    congr 1; simp only [Int.ofNat_eq_natCast]; omega
+  unfold numDigits at h
+  rw [lemma_render_eq, lemma_parse_nat, if_neg (by simp [h])]
+  by_cases hn : n < 0 <;> simp [hn] <;> omega
+
+theorem lemma_parse_render_over (n : Int) (h : overLimit (numDigits n) = true) :
+    pyIntParse 10 (render n) = none := by
+  unfold numDigits at h
+  rw [lemma_render_eq, lemma_parse_nat, if_pos h]
 
 /-! ### base 16 and the UUID rendering -/
 
@@ -307,7 +304,7 @@ theorem lemma_skipHexPrefix_hex (h : List Char) (hh : ∀ c ∈ h, c ∈ hexChar
 theorem lemma_parse_hex (h : List Char) (hne : h ≠ []) (hh : ∀ c ∈ h, c ∈ hexChars) :
     pyIntParse 16 h = some (Int.ofNat (bodyValue 16 h)) := by
   have := lemma_parse_digits 16 false h hne (fun c hc => (lemma_hex_char_facts c (hh c hc)).1)
-    (fun _ => lemma_skipHexPrefix_hex h hh) (by simp)
+    (fun _ => lemma_skipHexPrefix_hex h hh)
   simpa using this
 
 theorem lemma_removeHyphens_id (l : List Char) (h : '-' ∉ l) : removeHyphens l = l := by
@@ -331,5 +328,31 @@ theorem lemma_removeHyphens_hyphenate (h : List Char) :
   unfold hyphenate
   simp only [removeHyphens, List.filter_append, List.filter_cons] at this ⊢
   simpa using this
+
+/-! ### decoration removal -/
+
+theorem lemma_removeUrn_id (l : List Char) (h : 'u' ∉ l) : removeUrn l = l := by
+  induction l with
+  | nil => rfl
+  | cons a l ih =>
+    have ha : a ≠ 'u' := fun e => h (by simp [e])
+    have := ih (fun hm => h (by simp [hm]))
+    unfold removeUrn
+    split
+    · rename_i heq; simp at heq; exact absurd heq.1 ha
+    · rename_i heq; simp at heq; rw [← heq.1, ← heq.2, this]
+    · rename_i heq; simp at heq
+
+theorem lemma_removeUuid_id (l : List Char) (h : 'u' ∉ l) : removeUuid l = l := by
+  induction l with
+  | nil => rfl
+  | cons a l ih =>
+    have ha : a ≠ 'u' := fun e => h (by simp [e])
+    have := ih (fun hm => h (by simp [hm]))
+    unfold removeUuid
+    split
+    · rename_i heq; simp at heq; exact absurd heq.1 ha
+    · rename_i heq; simp at heq; rw [← heq.1, ← heq.2, this]
+    · rename_i heq; simp at heq
 
 end Oslo.Scalars
